@@ -38,6 +38,7 @@ Proof.
   replace (oZ_eqb (q_pos p) (q_pos p)) with true by (symmetry; now apply oZ_eqb_eq).
   replace (oZ_eqb (q_bits p) (q_bits p)) with true by (symmetry; now apply oZ_eqb_eq).
   replace (oZ_eqb (q_sem p) (q_sem p)) with true by (symmetry; now apply oZ_eqb_eq).
+  unfold cmp_tail. replace (oZ_eqb (q_bitpos p) (q_bitpos p)) with true by (symmetry; now apply oZ_eqb_eq).
   cbn. apply cmp_kind_self.
 Qed.
 
@@ -64,6 +65,12 @@ Proof.
         apply in_when in H as [_ ->]; unfold L_const, L_default; lia.
 Qed.
 
+Lemma cmp_tail_labels p1 p2 x : In x (cmp_tail p1 p2) -> 6 <= x <= 17.
+Proof.
+  unfold cmp_tail. rewrite in_app_iff, in_when. intros [[_ ->]|H]; [unfold L_bitpos; lia|].
+  apply cmp_kind_labels in H. lia.
+Qed.
+
 (* ---------- each basic property is reported exactly when it differs ---------- *)
 Lemma in_cp p1 p2 x : In x (compare_params p1 p2) <->
   (negb (q_name p1 =? q_name p2) = true /\ x = L_name) \/
@@ -71,7 +78,7 @@ Lemma in_cp p1 p2 x : In x (compare_params p1 p2) <->
   (negb (oZ_eqb (q_bits p1) (q_bits p2)) = true /\ x = L_bits) \/
   (negb (oZ_eqb (q_sem p1) (q_sem p2)) = true /\ x = L_sem) \/
   (negb (q_type p1 =? q_type p2) = true /\ x = L_type) \/
-  In x (cmp_kind (q_kind p1) (q_kind p2)).
+  In x (cmp_tail p1 p2).
 Proof. unfold compare_params. rewrite !in_app_iff, !in_when. tauto. Qed.
 
 Lemma negb_Zeqb a b : negb (a =? b) = true <-> a <> b.
@@ -90,7 +97,7 @@ Theorem reported_iff_differs p1 p2 :
   (In L_sem (compare_params p1 p2) <-> q_sem p1 <> q_sem p2) /\
   (In L_type (compare_params p1 p2) <-> q_type p1 <> q_type p2).
 Proof.
-  pose proof (cmp_kind_labels (q_kind p1) (q_kind p2)) as K.
+  pose proof (cmp_tail_labels p1 p2) as K.
   rewrite !in_cp. unfold L_name, L_pos, L_bits, L_sem, L_type in *.
   split; [|split; [|split; [|split]]]; split.
   - intros [[H _]|[[_ E]|[[_ E]|[[_ E]|[[_ E]|H]]]]]; try discriminate E; [now apply negb_Zeqb | apply K in H; lia].
@@ -108,17 +115,18 @@ Qed.
 (* ---------- the data object behind an unchanged reference ---------- *)
 (* two parameters with data objects: "Linked DOP object" is reported exactly when the objects or their units
    differ; the detail lines only appear together with it *)
-Theorem dop_reported_iff_differs n t po b s i1 n1 u1 p1 e1 i2 n2 u2 p2 e2 :
-  let q1 := mkQ n t po b s (QDop i1 n1 u1 p1 e1) in
-  let q2 := mkQ n t po b s (QDop i2 n2 u2 p2 e2) in
+Theorem dop_reported_iff_differs n t po b s bp i1 n1 u1 p1 e1 i2 n2 u2 p2 e2 :
+  let q1 := mkQ n t po b s (QDop i1 n1 u1 p1 e1) bp in
+  let q2 := mkQ n t po b s (QDop i2 n2 u2 p2 e2) bp in
   (In L_dop (compare_params q1 q2) <-> i1 <> i2 \/ unit_same u1 u2 = false) /\
   (forall x, In x (compare_params q1 q2) -> x = L_const \/ x = L_default \/ i1 <> i2 \/ unit_same u1 u2 = false).
 Proof.
-  cbv zeta. unfold compare_params. cbn [q_name q_type q_pos q_bits q_sem q_kind].
+  cbv zeta. unfold compare_params, cmp_tail. cbn [q_name q_type q_pos q_bits q_sem q_kind q_bitpos].
   rewrite !Z.eqb_refl.
   replace (oZ_eqb po po) with true by (symmetry; now apply oZ_eqb_eq).
   replace (oZ_eqb b b) with true by (symmetry; now apply oZ_eqb_eq).
   replace (oZ_eqb s s) with true by (symmetry; now apply oZ_eqb_eq).
+  replace (oZ_eqb bp bp) with true by (symmetry; now apply oZ_eqb_eq).
   cbn [negb when app cmp_kind].
   assert (X : forall x, In x (cmp_extra e1 e2) -> x = L_const \/ x = L_default).
   { intros x H. unfold cmp_extra in H. destruct e1 as [a|[a|]|], e2 as [c|[c|]|]; try destruct H;
@@ -137,11 +145,11 @@ Proof.
 Qed.
 
 (* a unit which was modified in place behind unchanged references is reported *)
-Corollary unit_edit_reported n t po b s i nm a a' p e :
+Corollary unit_edit_reported n t po b s bp i nm a a' p e :
   u_id a <> u_id a' ->
-  In L_dop (compare_params (mkQ n t po b s (QDop i nm (Some a) p e)) (mkQ n t po b s (QDop i nm (Some a') p e))).
+  In L_dop (compare_params (mkQ n t po b s (QDop i nm (Some a) p e) bp) (mkQ n t po b s (QDop i nm (Some a') p e) bp)).
 Proof.
-  intros H. apply (proj1 (dop_reported_iff_differs n t po b s i nm (Some a) p e i nm (Some a') p e)).
+  intros H. apply (proj1 (dop_reported_iff_differs n t po b s bp i nm (Some a) p e i nm (Some a') p e)).
   right. cbn. now apply Z.eqb_neq.
 Qed.
 
@@ -149,7 +157,7 @@ Qed.
 Theorem nothing_reported p1 p2 :
   compare_params p1 p2 = [] ->
   q_name p1 = q_name p2 /\ q_pos p1 = q_pos p2 /\ q_bits p1 = q_bits p2 /\ q_sem p1 = q_sem p2 /\ q_type p1 = q_type p2 /\
-  cmp_kind (q_kind p1) (q_kind p2) = [].
+  q_bitpos p1 = q_bitpos p2 /\ cmp_kind (q_kind p1) (q_kind p2) = [].
 Proof.
   intros H. destruct (reported_iff_differs p1 p2) as (A & B & C & D & E). rewrite H in *. cbn [In] in *.
   assert (N : forall (P : Prop), (False <-> ~ P) -> (P \/ ~ P) -> P) by (intros P [_ X] [Y|Y]; [exact Y | destruct (X Y)]).
@@ -159,20 +167,35 @@ Proof.
   - apply N; [exact C|]. destruct (oZ_eqb (q_bits p1) (q_bits p2)) eqn:Q; [left; now apply oZ_eqb_eq | right; intros X; apply oZ_eqb_eq in X; congruence].
   - apply N; [exact D|]. destruct (oZ_eqb (q_sem p1) (q_sem p2)) eqn:Q; [left; now apply oZ_eqb_eq | right; intros X; apply oZ_eqb_eq in X; congruence].
   - apply N; [exact E | destruct (Z.eq_dec (q_type p1) (q_type p2)); auto].
-  - unfold compare_params in H. repeat (apply app_eq_nil in H; destruct H as [_ H]). exact H.
+  - unfold compare_params in H. do 5 (apply app_eq_nil in H; destruct H as [_ H]). unfold cmp_tail in H.
+    apply app_eq_nil in H as [H _]. destruct (oZ_eqb (q_bitpos p1) (q_bitpos p2)) eqn:Q; [now apply oZ_eqb_eq | discriminate H].
+  - unfold compare_params in H. do 5 (apply app_eq_nil in H; destruct H as [_ H]). unfold cmp_tail in H.
+    apply app_eq_nil in H as [_ H]. exact H.
+Qed.
+
+(* the bit position is reported exactly when it differs *)
+Theorem bitpos_reported_iff_differs p1 p2 :
+  In L_bitpos (compare_params p1 p2) <-> q_bitpos p1 <> q_bitpos p2.
+Proof.
+  rewrite in_cp. unfold cmp_tail. rewrite in_app_iff, in_when. unfold L_name, L_pos, L_bits, L_sem, L_type, L_bitpos.
+  pose proof (cmp_kind_labels (q_kind p1) (q_kind p2) 17) as K.
+  split.
+  - intros [[_ E]|[[_ E]|[[_ E]|[[_ E]|[[_ E]|[[H _]|H]]]]]]; try discriminate E; [now apply negb_oZeqb | apply K in H; lia].
+  - intros H. right. right. right. right. right. left. split; [now apply negb_oZeqb | reflexivity].
 Qed.
 
 (* a coded constant: data type and value are reported exactly when they differ *)
-Theorem coded_reported_iff_differs n t po b s d1 v1 d2 v2 :
-  let q1 := mkQ n t po b s (QCoded d1 v1) in
-  let q2 := mkQ n t po b s (QCoded d2 v2) in
+Theorem coded_reported_iff_differs n t po b s bp d1 v1 d2 v2 :
+  let q1 := mkQ n t po b s (QCoded d1 v1) bp in
+  let q2 := mkQ n t po b s (QCoded d2 v2) bp in
   (In L_dt (compare_params q1 q2) <-> d1 <> d2) /\ (In L_value (compare_params q1 q2) <-> v1 <> v2).
 Proof.
-  cbv zeta. unfold compare_params. cbn [q_name q_type q_pos q_bits q_sem q_kind].
+  cbv zeta. unfold compare_params, cmp_tail. cbn [q_name q_type q_pos q_bits q_sem q_kind q_bitpos].
   rewrite !Z.eqb_refl.
   replace (oZ_eqb po po) with true by (symmetry; now apply oZ_eqb_eq).
   replace (oZ_eqb b b) with true by (symmetry; now apply oZ_eqb_eq).
   replace (oZ_eqb s s) with true by (symmetry; now apply oZ_eqb_eq).
+  replace (oZ_eqb bp bp) with true by (symmetry; now apply oZ_eqb_eq).
   cbn [negb when app cmp_kind]. rewrite !in_app_iff, !in_when, !negb_true_iff, !Z.eqb_neq.
   unfold L_dt, L_value. split; split; intros H; try tauto.
   - destruct H as [[H _]|[_ H]]; [exact H | discriminate].
@@ -181,6 +204,7 @@ Qed.
 
 Example compare_example :
   let dop i := QDop i 5 None (Some 2) (XValue None) in
-  compare_params (mkQ 1 7 (Some 2) (Some 16) None (dop 11)) (mkQ 1 7 (Some 2) (Some 8) None (dop 12)) = [L_bits; L_dop] /\
-  compare_params (mkQ 1 7 (Some 2) (Some 8) None (QCoded 3 34)) (mkQ 1 7 None (Some 8) (Some 9) (QCoded 3 35)) = [L_pos; L_sem; L_value].
+  compare_params (mkQ 1 7 (Some 2) (Some 16) None (dop 11) None) (mkQ 1 7 (Some 2) (Some 8) None (dop 12) None) = [L_bits; L_dop] /\
+  compare_params (mkQ 1 7 (Some 2) (Some 8) None (QCoded 3 34) (Some 4)) (mkQ 1 7 None (Some 8) (Some 9) (QCoded 3 35) None)
+    = [L_pos; L_sem; L_bitpos; L_value].
 Proof. vm_compute. split; reflexivity. Qed.
